@@ -5,6 +5,7 @@ import Vuego.Driver.PageOp
 import Vuego.Driver.EntryOp
 import Vuego.Driver.LayoutOp
 import Vuego.Driver.CacheOp
+import Vuego.Driver.MergeOp
 namespace Vuego.Driver
 open Lean
 
@@ -21,6 +22,7 @@ def handle (j : Json) : Json :=
   | "writer" => writerOp j
   | "layout" => layoutOp j
   | "cache" => cacheOp j
+  | "merge" => mergeOp j
   | _ => O [("error", Json.str "bad-op")]
 
 def handleLine (line : String) : String :=
